@@ -249,6 +249,11 @@ func (it *Interp) RunIn(prog ast.Node, c *Callee, env *object.Env) (res Result) 
 	return
 }
 
+// Bind puts the callee into a scope as `S` (no interpreter state is touched).
+func (c *Callee) Bind(env *object.Env) {
+	env.Set(object.GetSymHash("S"), &object.PanBuiltIn{Fn: c.fn})
+}
+
 // TraceIDs renders a trace as slot ids.
 func TraceIDs(t []Event) []int {
 	ids := make([]int, len(t))
